@@ -5,6 +5,7 @@ import Driver.Histogram
 import Driver.MetricsRs
 import Driver.Units
 import Driver.Timers
+import Driver.EmfSpec
 /-!
 `driver <engine>`: reads one request per line on stdin, prints one reply per line.
 Every engine is a pure function `String → String` of the request line (stateful models receive the
@@ -18,7 +19,8 @@ def engines : List (String × (String → String)) := [
   ("histogram", Driver.Histogram.handle),
   ("metricsrs", Driver.MetricsRs.handle),
   ("units", Driver.Units.handle),
-  ("timers", Driver.Timers.handle)
+  ("timers", Driver.Timers.handle),
+  ("emfspec", Driver.EmfSpec.handle)
 ]
 
 partial def loop (h : IO.FS.Stream) (out : IO.FS.Stream) (f : String → String) : IO Unit := do
